@@ -137,6 +137,8 @@ struct ItemResp {
     missing_anchors: Vec<u32>,
     /// anchor id -> block nesting depth at which the hint was placed
     anchor_depths: BTreeMap<u32, u32>,
+    /// control skeleton after the rewrites: if / match / return / break / continue / ? and the loops, in pre-order
+    ctrl: Vec<String>,
     /// normalised token text of the original item (for pins / change detection)
     orig_norm: String,
 }
@@ -1792,6 +1794,7 @@ struct Marker {
     /// block nesting depth while visiting, and the depth at which each anchor was placed (part of the function's SHAPE)
     depth: u32,
     placed_depth: BTreeMap<u32, u32>,
+    ctrl: Vec<String>,
 }
 
 fn mac_stmt(name: &str, arg: Option<u32>) -> Stmt {
@@ -1816,6 +1819,7 @@ impl Marker {
         let k = self.next_loop;
         self.next_loop += 1;
         self.kinds.push(kind.to_string());
+        self.ctrl.push(kind.to_string());
         // recurse first so inner loops get later ordinals in pre-order: we assigned k already
         self.visit_block_mut(body);
         body.stmts.insert(0, mac_stmt("__vx_loop", Some(k)));
@@ -1888,7 +1892,21 @@ impl VisitMut for Marker {
                 let ne: Expr = parse_quote!(__vx_iter!(#l, #it));
                 f.expr = Box::new(ne);
             }
-            _ => visit_mut::visit_expr_mut(self, e),
+            _ => {
+                let c = match e {
+                    Expr::If(_) => "if",
+                    Expr::Match(_) => "match",
+                    Expr::Return(_) => "return",
+                    Expr::Break(_) => "break",
+                    Expr::Continue(_) => "continue",
+                    Expr::Try(_) => "?",
+                    _ => "",
+                };
+                if !c.is_empty() {
+                    self.ctrl.push(c.to_string());
+                }
+                visit_mut::visit_expr_mut(self, e)
+            }
         }
     }
 }
@@ -2153,7 +2171,7 @@ fn do_fn(items: &[Item], req: &ItemReq, feats: &[String]) -> std::result::Result
     let mut counts: BTreeMap<String, u32> = BTreeMap::new();
 
     // pass A: anchors and pinned replacements on the ORIGINAL statements
-    let mut am = Marker { do_loops: false, next_loop: 0, kinds: vec![], anchors: req.anchors.clone(), found: BTreeMap::new(), depth: 0, placed_depth: BTreeMap::new() };
+    let mut am = Marker { do_loops: false, next_loop: 0, kinds: vec![], anchors: req.anchors.clone(), found: BTreeMap::new(), depth: 0, placed_depth: BTreeMap::new(), ctrl: vec![] };
     am.visit_block_mut(&mut block);
     let mut rp = Replacer {
         stmt: req.replace_stmt.iter().cloned().map(|r| (r, 0)).collect(),
@@ -2201,7 +2219,7 @@ fn do_fn(items: &[Item], req: &ItemReq, feats: &[String]) -> std::result::Result
         // pass B: anchors and pins that were not found before may sit in an inlined helper body now
         let missing_a: Vec<Anchor> = req.anchors.iter().filter(|a| am.found.get(&a.id).copied().unwrap_or(0) == 0).cloned().collect();
         if !missing_a.is_empty() {
-            let mut am2 = Marker { do_loops: false, next_loop: 0, kinds: vec![], anchors: missing_a, found: BTreeMap::new(), depth: 100, placed_depth: BTreeMap::new() };
+            let mut am2 = Marker { do_loops: false, next_loop: 0, kinds: vec![], anchors: missing_a, found: BTreeMap::new(), depth: 100, placed_depth: BTreeMap::new(), ctrl: vec![] };
             am2.visit_block_mut(&mut block);
             for (k, v) in am2.found {
                 am.found.insert(k, v);
@@ -2310,7 +2328,7 @@ fn do_fn(items: &[Item], req: &ItemReq, feats: &[String]) -> std::result::Result
     if ps.n > 0 {
         rw.counts.insert("A3.crate_paths".to_string(), ps.n);
     }
-    let mut mk = Marker { do_loops: true, next_loop: 0, kinds: vec![], anchors: vec![], found: BTreeMap::new(), depth: 0, placed_depth: BTreeMap::new() };
+    let mut mk = Marker { do_loops: true, next_loop: 0, kinds: vec![], anchors: vec![], found: BTreeMap::new(), depth: 0, placed_depth: BTreeMap::new(), ctrl: vec![] };
     mk.visit_block_mut(&mut block);
     let mut missing = Vec::new();
     for a in &req.anchors {
@@ -2417,6 +2435,7 @@ fn do_fn(items: &[Item], req: &ItemReq, feats: &[String]) -> std::result::Result
         rewrites: rw.counts,
         missing_anchors: missing,
         anchor_depths: am.placed_depth.clone(),
+        ctrl: mk.ctrl,
         orig_norm,
     })
 }
